@@ -596,6 +596,15 @@ func runTrace(in input) lib.Case {
 	defer func() {
 		w.sched.ReleaseAll()
 		onet.SetVerifHook(func(string, ...interface{}) {})
+		cnt.Lock()
+		var ps []*tproto
+		for _, p := range cnt.insts {
+			ps = append(ps, p)
+		}
+		cnt.Unlock()
+		for _, p := range ps {
+			p.Done() // otherwise CloseAll waits seconds for lingering instances
+		}
 		lt.CloseAll()
 		cnt = nil
 	}()
@@ -676,6 +685,7 @@ type EPing struct {
 
 type e2eLog struct {
 	sync.Mutex
+	insts []*eproto
 	sent [][2]int
 	recv [][2]int
 	bad  int
@@ -694,6 +704,11 @@ func newEProto(n *onet.TreeNodeInstance) (onet.ProtocolInstance, error) {
 	p := &eproto{TreeNodeInstance: n, run: -1}
 	if err := p.RegisterHandlers(p.handleGo, p.handleEPing); err != nil {
 		return nil, err
+	}
+	if elog != nil {
+		elog.Lock()
+		elog.insts = append(elog.insts, p)
+		elog.Unlock()
 	}
 	return p, nil
 }
@@ -821,7 +836,11 @@ func runE2E(in input) lib.Case {
 	sent := append([][2]int(nil), elog.sent...)
 	recv := append([][2]int(nil), elog.recv...)
 	bad := elog.bad
+	insts := append([]*eproto(nil), elog.insts...)
 	elog.Unlock()
+	for _, p := range insts {
+		p.Done()
+	}
 	if bad > 0 {
 		// a send reported an error (link problem): outside the property's premise
 		return lib.Case{Discard: true, Class: in.Name, Obs: "send error"}
@@ -879,9 +898,9 @@ func templates() []input {
 
 func generate(rng *rand.Rand, tier string) []interface{} {
 	var ins []interface{}
-	nrand, ne2e := 10, 4
+	nrand, ne2e := 60, 10
 	if tier != "quick" {
-		nrand, ne2e = 300, 40
+		nrand, ne2e = 1500, 120
 	}
 	for _, t := range templates() {
 		ins = append(ins, t)
